@@ -406,3 +406,32 @@ def string_front_end(ctx, prog):
         ok = ok and sorted(sides) == [("Left", "lhs", ("<Err>", "0")), ("Right", "rhs", ("<Err>", "0"))]
         why += "; error sides %s" % sorted((a, b) for a, b, c in sides)
     ctx.ob(R, "ssdeep::compare(lhs, rhs) = Ok(parse::<LongFuzzyHash>(lhs)?.compare(parse::<LongFuzzyHash>(rhs)?)) with Left/Right error tags", ok, why, f.loc())
+
+
+def scan_guards_tight(ctx, prog):
+    """has_common_substring_internal: each unsigned subtraction `a - K` that positions the scan is guarded by exactly
+    `a >= K` on the same operands (the scan stops iff the next position would be negative) - a `>` here would silently
+    skip the window at position 0.  A necessary condition for the pre-filter's exactness, not a proof of it."""
+    f = prog.fn("BlockHashPositionArrayImplInternal::has_common_substring_internal")
+    ctx.visit(f)
+    sy = Sym(f)
+    n = 0
+    for i, j, s in f.stmts():
+        if s["s"] != "assign" or s["rv"]["r"] != "bin" or s["rv"]["op"] not in ("Sub", "SubWithOverflow", "SubUnchecked"):
+            continue
+        a, b = sy.operand(s["rv"]["a"]), sy.operand(s["rv"]["b"])
+        ca, cb = canon(strip(a)), canon(strip(b))
+        if not (strip(b)[0] == "const" and (strip(b)[2] or "").endswith("MIN_LCS_FOR_COMPARISON")) or strip(a)[0] == "const":
+            continue
+        n += 1
+        rel = None
+        for c in path_conds(f, sy, i):
+            at = bool_atom(c)
+            if at and at[0] in ("Lt", "Le", "Gt", "Ge") and {canon(strip(at[1])), canon(strip(at[2]))} == {ca, cb}:
+                op = at[0]
+                if canon(strip(at[1])) == cb:  # K op a  -> flip
+                    op = {"Lt": "Gt", "Le": "Ge", "Gt": "Lt", "Ge": "Le"}[op]
+                rel = op
+        ctx.ob("SA-GUARD", "has_common_substring_internal: `%s - MIN_LCS` is guarded by exactly `%s >= MIN_LCS`" % (show(a)[:40], show(a)[:40]), rel == "Ge",
+               "guard found: %s" % rel, f.loc(s["sp"]))
+    ctx.floor("SA-GUARD", n, 2, "scan-position subtractions in has_common_substring_internal")
